@@ -150,6 +150,10 @@ var substTokens = []string{"{", "}", ";", "\"str\"", "ident", "123", "+"}
 // load runs one input through the loader and, on success, the walker. It records violations.
 func c14Load(c *core.Ctx, origin, kind string, opener source.Opener, text string, byName string) string {
 	c.Eval()
+	c.Progress()
+	if d := os.Getenv("VERIF_DUMP"); d != "" {
+		os.WriteFile(d, []byte(text), 0o644)
+	}
 	if os.Getenv("VERIF_TRACE") != "" {
 		fmt.Fprintf(os.Stderr, "LOAD %s %s %s\n", origin, kind, quoteHead(text, 3000))
 	}
